@@ -194,6 +194,7 @@ func checkC20(ctx *Ctx) {
 			classes[g] = append(classes[g], i)
 		}
 		var sortedClasses [][]int
+		var looseClasses [][]int // classes on which Compare is not one linear preorder
 		for g := 0; g < 2; g++ {
 			idx := classes[g]
 			if len(idx) < 3 {
@@ -211,6 +212,8 @@ func checkC20(ctx *Ctx) {
 			}
 			if ok {
 				sortedClasses = append(sortedClasses, idx)
+			} else {
+				looseClasses = append(looseClasses, idx)
 			}
 		}
 		nConvex, nEq := 0, 0
@@ -258,6 +261,54 @@ func checkC20(ctx *Ctx) {
 						classifyConvex(e, &v, rt, p.Vals[idx[k]])
 						res.violate(v)
 						break
+					}
+				}
+			}
+		}
+		// classes that Compare does not order linearly (C01 reports that; for maven it is a
+		// recorded finding): convexity is checked as the property states it, on triples —
+		// a and c contained, a <= b, b <= c, b not contained — without relying on a sorted pool
+		for _, idx := range looseClasses {
+			n := len(idx)
+			le := make([][]bool, n)
+			for a := range le {
+				le[a] = make([]bool, n)
+				for b := range le[a] {
+					le[a][b] = cmpS(e, p.Vals[idx[a]], p.Vals[idx[b]]) <= 0
+				}
+			}
+			reported := 0
+			for ri, rt := range texts {
+				if reported >= 3 || !conjOnlyText(e.Name, rt) || (e.Name == "pypi" && strings.Contains(rt, "===")) {
+					continue
+				}
+				mem := make([]bool, n)
+				for k, i := range idx {
+					mem[k], _ = e.Contains(rvals[ri], p.Vals[i])
+					res.Evaluations++
+				}
+			search:
+				for b := 0; b < n; b++ {
+					if mem[b] {
+						continue
+					}
+					for a := 0; a < n; a++ {
+						if !mem[a] || !le[a][b] {
+							continue
+						}
+						for c := 0; c < n; c++ {
+							if mem[c] && le[b][c] {
+								v := Violation{Eco: e.Name, Kind: "not-convex", Input: map[string]any{"range": rt, "a": p.Strs[idx[a]], "b": p.Strs[idx[b]], "c": p.Strs[idx[c]]},
+									Expected: "a <= b <= c, range contains a and c, so it contains b", Actual: "b not contained"}
+								classifyConvex(e, &v, rt, p.Vals[idx[b]])
+								if v.Finding == "" {
+									classifyOrder(e, &v, p.Vals[idx[a]], p.Vals[idx[b]], p.Vals[idx[c]])
+								}
+								res.violate(v)
+								reported++
+								break search
+							}
+						}
 					}
 				}
 			}
